@@ -17,8 +17,20 @@ THEOREMS = ["C23_stage_wrapper_trace", "C23_stage_wrapper_unstages_all", "C23_st
 COQ_IMPORTS = ("From BV Require Import Gen.Coalg Gen.PyGen Gen.Wrappers Gen.Tie Gen.Paired Gen.Insert Gen.Relative "
                "Gen.TiePaired Gen.TieRelative.")
 PARALLEL = True
-MODELLED = ""
-RULE = ""
+MODELLED = ("finalize_wrapper / contingency_wrapper are C22's verified machine, plan_mutator is C21's (monitor/fly_during); the wrappers' own "
+            "glue -- `return (yield from ...)`, inner() = prefix then plan, stage_all / unstage_all / _subscribe / _unsubscribe / open_run / "
+            "close_run as list plans, plan_mutator with one inserted query and a closure store (lazily_stage) -- is modelled by hand; "
+            "separate_devices / root_ancestor are modelled on a finite parent forest; CPython generators by PyGen (C20); Python's set "
+            "iteration order is a model input taken from a plain Python set; wrapper-made messages are identified by content, random "
+            "group uuids by the role of the first message carrying them; fake devices, callables and suspenders are inert objects")
+RULE = ("7 real wrappers x palettes of wrapped plans (returning, failing at once / after messages, raising RequestAbort / RequestStop / "
+        "KeyboardInterrupt / GeneratorExit, swallowing thrown exceptions, reacting to control exceptions, ignoring close, own cleanup "
+        "that yields, re-yielding the same Msg object) x device lists on parent forests with shared ancestors (chains, two trees, "
+        "duplicates, empty) / suspender lists / subscription dicts, lists, callables / flyer and signal lists; scripts: the all-answered "
+        "script and, at EVERY position, each of send 1/2/Status, throw User0 / RequestAbort / RequestStop / PlanHalt / KeyboardInterrupt / "
+        "GeneratorExit, close, followed by answers again (+ pairs of deviations on random cases), plus exhaustive scripts of length <= 4-6 "
+        "over a 5-6 letter alphabet on small configurations; seeded random plans of gen_dsl; non-trivial = an undo message was observed "
+        "and some script has >= 4 steps")
 
 Y = lambda m, x=None: ["yield", x, m]      # noqa: E731
 
